@@ -12,9 +12,10 @@ Written from the S3 API reference and RFC 9110 — not from `s3s-fs`. It shares 
 * a read returns the most recently written content, its user metadata and the MD5 ETag (and, the
   harness asking with `ChecksumMode=ENABLED`, the checksums the object was stored with);
 * a ranged read returns the RFC 9110 §14.1.2 slice (`DtoSpec.rfcInterval`) with the matching
-  `Content-Range` and `Content-Length`; an unsatisfiable range (or one that selects no byte — nothing a
-  `Content-Range` could express) is `InvalidRange` (416). The HTTP layer answers 206 exactly when
-  `Content-Range` is present (`Resp.status`);
+  `Content-Range` and `Content-Length`; an unsatisfiable range is `InvalidRange` (416); a satisfiable range that
+  selects no byte (a non-zero suffix of an empty object — nothing a `Content-Range` could express) is answered by
+  the empty representation without `Content-Range`. The HTTP layer answers 206 exactly when `Content-Range` is
+  present (`Resp.status`);
 * a listing holds exactly the keys under the prefix, in byte order, after `start-after`, rolled up by the
   delimiter and cut at `max-keys`;
 * a completed multipart upload is the concatenation of the listed parts (ascending part numbers, every
@@ -86,9 +87,10 @@ def readObj (H : Hashes) (o : Obj) (range : Option Range) : Resp :=
     match DtoSpec.rfcInterval (toByteRange r) len with
     | none => .err .InvalidRange
     | some (st, en) =>
-      if st ≥ en then .err .InvalidRange
-      else .get (slice o.content st en) (en - st) (some (fmtContentRange st (en - 1) len))
-            (some (etagOf H o.content)) o.md o.cks
+      -- a satisfiable range that selects no byte (a suffix range of an empty object) has no `Content-Range`
+      -- form: the (empty) representation is answered as such, status 200
+      .get (slice o.content st en) (en - st) (if st < en then some (fmtContentRange st (en - 1) len) else none)
+        (some (etagOf H o.content)) o.md o.cks
 
 /-- HTTP status of an answer: 206 exactly when a `Content-Range` is present -/
 def status : Resp → Nat
@@ -218,12 +220,13 @@ def step (H : Hashes) (s : Store) : Op → Store × Resp
     else if alHas b s.buckets then (s, .ok) else (s, .err .NoSuchBucket)
   | .listBuckets => (s, .buckets (sortBytes (s.buckets.map (·.1))))
   | .putObject b k c md cks _clen =>
+    -- a write resolves its bucket before looking at the key
     if !bucketOk b then (s, .err .InvalidBucketName)
-    else if !keyOk k then (s, .err .InvalidArgument)
     else match s.bucket b with
       | none => (s, .err .NoSuchBucket)
       | some _ =>
-        if !checksOk H c cks then (s, .err .BadDigest)
+        if !keyOk k then (s, .err .InvalidArgument)
+        else if !checksOk H c cks then (s, .err .BadDigest)
         else (s.setObj b k ⟨c, md.getD [], cks⟩, .put (some (etagOf H c)) cks)
   | .getObject b k range =>
     if !bucketOk b then (s, .err .InvalidBucketName)
@@ -268,8 +271,7 @@ def step (H : Hashes) (s : Store) : Op → Store × Resp
         | none => (s, .err .NoSuchKey)
         | some o =>
           if !alHas db s.buckets then (s, .err .NoSuchBucket)
-          else if sb = db ∧ sk = dk then (s, .err .InvalidRequest)   -- a copy onto itself that changes nothing
-          else (s.setObj db dk o, .copied (some (etagOf H o.content)))
+          else (s.setObj db dk o, .copied (some (etagOf H o.content)))   -- onto itself: nothing changes
   | .listObjectsV2 b pfx delim startAfter maxKeys =>
     if !bucketOk b then (s, .err .InvalidBucketName)
     else match s.bucket b with
